@@ -84,6 +84,19 @@ def roots(ctx):
             for fi in mod.functions.values():
                 if fi.name.startswith("f_") or fi.name in ("wrap", "chain_cancel", "timeout_executor"):
                     out.append((fi, None, "combinator"))
+    # private methods of the future classes that link the future to a delegate (they register one of the future's own
+    # methods as done-callback): when the delegate is already done the whole resolution runs from inside them
+    for ci in ctx.future_classes():
+        for c in ci.mro():
+            if not isinstance(c, ClassInfo):
+                continue
+            for n, m in c.methods.items():
+                if ci.lookup(n)[1] is not m or (m.key, ci.key) in seen:
+                    continue
+                ps, it = ctx.paths(m, ci, depth=0)
+                if any(q.call_name(e) == "add_done_callback" and e.fn is m and e.d["args"] and isinstance(e.d["args"][0], tuple) and e.d["args"][0][:2] == ("attr", ("param", "self")) for p in ps for e in p.calls()):
+                    seen.add((m.key, ci.key))
+                    out.append((m, ci, "delegate link"))
     return out
 
 
@@ -156,6 +169,7 @@ def check(ctx, rep):
     futc = prog.cls("_Future")
     trans_rule(ctx, rep, [c for c in prog.subclasses(futc, strict=True)], roles.proto(ctx).dispatch, roles.proto(ctx).lock)
 
+    PROTO = roles.proto(ctx)
     rs = roots(ctx)
     rep.count("entry points analysed (public methods, worker loops, callbacks, combinators)", len(rs), 120)
     n_user = n_disp = n_enter = n_block = 0
@@ -219,6 +233,13 @@ def check(ctx, rep):
                                 for hr, h in held_roles:
                                     if hr and hr[0] in EXEC_LEVEL(ctx) and hr != a_role:
                                         reentry.setdefault((hr, a_role), (e, p, rname, h[1], xc.name))
+                    if d.get("user") and isinstance(d["func"], tuple) and d["func"][0] == "elem" and isinstance(d["func"][1], tuple) and d["func"][1][0] == "attr" and d["func"][1][2] == PROTO.cbs:
+                        # a future's done-callbacks run with that future's own lock held (even a re-entrant one):
+                        # a callback that touches a second future takes the two locks in one order, a callback of
+                        # the second future that touches the first takes them in the other
+                        F_ = d["func"][1][1]
+                        own = [l for l in e.locks if l[1] == ("attr", F_, PROTO.lock)]
+                        rep.ob("R-LOCK-USER", "%s: done-callbacks of %s run without that future's own lock" % (rname, fmt(F_)), not own, "the callbacks of %s are dispatched while %s is still held on this path (reached from %s): two futures whose callbacks touch each other deadlock on the order of their locks" % (fmt(F_), fmt(("attr", F_, PROTO.lock)), rname), where_of(e.fn, e.node), trace_of(p, e.seq))
                     if d.get("user"):
                         n_user += 1
                         key = "%s: user code %s" % (e.fn.qualname, _callee_s(d["func"]))
